@@ -547,11 +547,24 @@ RCP<const Set> solve(const RCP<const Basic> &f, const RCP<const Symbol> &sym,
 
     if (is_a<Mul>(*f)) {
         auto args = f->get_args();
-        set_set solns;
+        // a factor with `sym` in its denominator contributes poles, not
+        // roots: leave such products to solve_rational
+        bool has_pole = false;
         for (auto &a : args) {
-            solns.insert(solve(a, sym, domain));
+            RCP<const Basic> num, den;
+            as_numer_denom(a, outArg(num), outArg(den));
+            if (has_symbol(*den, *sym)) {
+                has_pole = true;
+                break;
+            }
         }
-        return SymEngine::set_union(solns);
+        if (not has_pole) {
+            set_set solns;
+            for (auto &a : args) {
+                solns.insert(solve(a, sym, domain));
+            }
+            return SymEngine::set_union(solns);
+        }
     }
 
     return solve_rational(f, sym, domain);
